@@ -116,6 +116,7 @@ type Contracts struct {
 	Abstract map[string]*AbstractType // key: importpath.Name
 	Types    map[string]*TypeSpec
 	PtrIfaces map[string]bool // interfaces whose dynamic values are always pointers
+	NonNil   []string    // package-level variables assumed non-nil (ledger)
 	ChanMsgs []*ChanSpec // package-level message invariants: chanmsg T (v): P
 	Files    []string
 	Errors   []string
@@ -131,7 +132,7 @@ var headWords = map[string]bool{
 	"modifies": true, "panics": true, "decreases": true, "pure": true, "log": true, "logs": true, "loop": true,
 	"invariant": true, "trusted": true, "source": true, "nobody": true, "lock": true, "shared": true,
 	"ghost": true, "chan": true, "chanmsg": true, "params": true, "creates": true, "consumes": true, "havoc": true, "assert": true,
-	"holds": true, "waitset": true, "immutable": true, "tracks": true, "ptriface": true, "preserves": true, "each": true, "wraparound": true,
+	"holds": true, "waitset": true, "immutable": true, "tracks": true, "ptriface": true, "nonnil": true, "preserves": true, "each": true, "wraparound": true,
 }
 
 type rawLine struct {
@@ -231,6 +232,12 @@ func (cs *Contracts) LoadContractFile(path, pkgPath string, pkgImports map[strin
 			}
 		case "ptriface":
 			cs.PtrIfaces[cs.qualify(ctx, strings.TrimSpace(rest))] = true
+			curF, curL, curT = nil, nil, nil
+		case "nonnil":
+			// nonnil pkg.Var[, pkg.Var]: package-level error values that are never nil (assumed)
+			for _, x := range strings.Split(rest, ",") {
+				cs.NonNil = append(cs.NonNil, cs.qualify(ctx, strings.TrimSpace(x)))
+			}
 			curF, curL, curT = nil, nil, nil
 		case "spec":
 			cs.parseSpecFunc(ctx, c.line, rest)
